@@ -137,6 +137,24 @@ def _collect(e, acc, seen):
         _collect(e.body(), acc, seen)
 
 
+def _mentions_pi(e):
+    if z3.is_app(e):
+        if e.num_args() == 0:
+            return e.eq(PI)
+        return any(_mentions_pi(c) for c in e.children())
+    return False
+
+
+def _negated(e):
+    """t if e is syntactically -t"""
+    if z3.is_app(e):
+        if e.decl().kind() == z3.Z3_OP_UMINUS:
+            return e.arg(0)
+        if e.decl().kind() == z3.Z3_OP_MUL and e.num_args() == 2 and is_num_val(e.arg(0)) and num_val(e.arg(0)) == -1:
+            return e.arg(1)
+    return None
+
+
 PI_LO = Fraction("3.14159265358979")
 PI_HI = Fraction("3.14159265358980")
 E_LO = Fraction("2.718281828459045")
@@ -198,6 +216,25 @@ def axioms_for(formulas, rounds=2, pair_limit=12, level=2):
                     s, c = _F1["sin"](a), _F1["cos"](a)
                     add(s * s + c * c == 1, 0)
                     add(z3.And(s >= -1, s <= 1, c >= -1, c <= 1))
+                    # reflection identities sin(pi - t) = sin t, cos(pi - t) = -cos t, sin(-t) = -sin t
+                    if _mentions_pi(a):
+                        a2 = z3.simplify(PI - a)
+                        if not _mentions_pi(a2):
+                            add(z3.And(s == _F1["sin"](a2), c == -_F1["cos"](a2)), 0)
+                    neg = _negated(a)
+                    if neg is not None:
+                        add(z3.And(s == -_F1["sin"](neg), c == _F1["cos"](neg)), 0)
+                    # signs on the principal ranges
+                    add(z3.Implies(z3.And(a >= 0, a <= PI), s >= 0), 0)
+                    add(z3.Implies(z3.And(a > 0, a < PI), s > 0))
+                    add(z3.Implies(z3.And(a >= -PI, a <= 0), s <= 0))
+                    add(z3.Implies(z3.And(a >= -PI / 2, a <= PI / 2), c >= 0), 0)
+                    add(z3.Implies(z3.And(a > -PI / 2, a < PI / 2), c > 0))
+                    add(z3.Implies(z3.And(a >= PI / 2, a <= 3 * PI / 2), c <= 0))
+                    add(z3.Implies(z3.And(a > PI / 2, a <= PI), c < 0))
+                    add(z3.Implies(a == 0, z3.And(s == 0, c == 1)))
+                    add(z3.Implies(a == PI, z3.And(s == 0, c == -1)))
+                    add(z3.Implies(a == PI / 2, z3.And(s == 1, c == 0)))
                 elif nm == "tan":
                     s, c = _F1["sin"](a), _F1["cos"](a)
                     add(z3.Implies(c != 0, t * c == s), 0)
@@ -265,6 +302,26 @@ def axioms_for(formulas, rounds=2, pair_limit=12, level=2):
                         elif nm == "arcsin":
                             dom = z3.And(a >= -1, a <= 1, b >= -1, b <= 1)
                         add(z3.Implies(dom, z3.And((a < b) == (us[i] < us[j]), (a == b) == (us[i] == us[j]))))
+            if level >= 2 and nm in ("sin", "cos") and len(terms) > 1:
+                us, ids = [], set()
+                for t in terms:
+                    if t.get_id() not in ids:
+                        ids.add(t.get_id())
+                        us.append(t)
+                us = us[:pair_limit]
+                for i in range(len(us)):
+                    for j in range(i + 1, len(us)):
+                        key = (nm, us[i].get_id(), us[j].get_id())
+                        if key in done:
+                            continue
+                        done.add(key)
+                        a, b = us[i].arg(0), us[j].arg(0)
+                        if nm == "sin":
+                            dom = z3.And(a >= -PI / 2, a <= PI / 2, b >= -PI / 2, b <= PI / 2)
+                            add(z3.Implies(dom, z3.And((a < b) == (us[i] < us[j]), (a == b) == (us[i] == us[j]))))
+                        else:
+                            dom = z3.And(a >= 0, a <= PI, b >= 0, b <= PI)
+                            add(z3.Implies(dom, z3.And((a < b) == (us[i] > us[j]), (a == b) == (us[i] == us[j]))))
             if level >= 2 and nm == "rpow" and len(terms) > 1:
                 us = terms[:pair_limit]
                 for i in range(len(us)):
